@@ -35,7 +35,7 @@ from .. import coqio as c
 
 WORDS = ["spam", "eggs", "ham", "sauce", "cheese", "onion", "stock", "rice", "mix", "dough", "Red Onion", "veg",
          # words that merely BEGIN with a remainder word / preposition / unit word (legal naked names)
-         "rested dough", "restaurant mix", "Remainders", "often", "gnocchi", "canned beans", "leftovers"]
+         "rested dough", "restaurant mix", "Remainders", "often", "gnocchi", "canned beans", "leftovers", "passata"]
 STEPS = ["chop", "fry", "boil", "mix", "bake", "stir well", "drain", "grate"]
 REMAINDERS = ["remaining", "remainder", "rest", "left over", "Remaining", "REST", "left  over", "leftover"]
 FREE_UNITS = ["handful", "large handfuls", "big sprigs", "Dash"]
@@ -71,6 +71,9 @@ def gen_number(rng: random.Random) -> Tuple[Any, str]:
     if k < 0.7:
         ip = rng.choice([0, 0, 1, 2, 12, 250])
         fp = rng.choice(["5", "25", "75", "1", "125", "3", "05", "0", ""])
+        if k > 0.63:
+            # tiny amounts: an absolute tolerance in quantity comparison would confuse them with each other / zero
+            ip, fp = 0, rng.choice(["0005", "0004", "001", "0", "00049", "0002"])
         txt = f"{ip}.{fp}"
         return float(txt), txt
     # fraction, optionally mixed, random layout
@@ -107,6 +110,21 @@ def gen_name_parts(rng: random.Random, pool: List[List[Any]], fresh: float = 0.3
         base = rng.choice(pool)
         parts = [p if not isinstance(p, str) else (
             p.upper() if rng.random() < 0.1 else p.capitalize() if rng.random() < 0.1 else p) for p in base]
+        strs = [i for i, p in enumerate(parts) if isinstance(p, str)]
+        if len(strs) >= 2 and rng.random() < 0.25:
+            # the same name with only a LATER text part in another case (normalisation lower-cases every part)
+            i = rng.choice(strs[1:])
+            parts[i] = parts[i].upper() if parts[i] != parts[i].upper() else parts[i].lower()
+        if rng.random() < 0.06:
+            # a DIFFERENT name that is equal only under full case FOLDING (str.casefold), not under str.lower
+            for i in strs:
+                t = parts[i]
+                for a, b in (("ss", "\u00df"), ("fi", "\ufb01"), ("s", "\u017f")):
+                    if a in t and not t.startswith(a):
+                        parts[i] = t.replace(a, b, 1)
+                        break
+                if parts[i] != t:
+                    break
         if rng.random() < 0.12:
             # a DIFFERENT name that reads the same: scaled number <-> the same digits as plain text
             from recipe_grid.number_formatting import format_number
@@ -228,7 +246,7 @@ def spell_name(parts: List[Any], rng: random.Random, canonical: bool = False, da
                 if m and rng.random() < 0.7 and m.end() < len(chunk):
                     lead, chunk = m.group(0), chunk[m.end():]
             style = rng.random()
-            fw = re.match(r"[A-Za-z]*", chunk).group(0).lower()
+            fw = re.match(r"[^\W\d_]*", chunk).group(0).casefold()   # (?i) folds U+017F / U+212A into s / k
             naked_ok = (not prev_naked and _NAKED.fullmatch(chunk) is not None and "\\" not in chunk
                         and (not first or (chunk[0].isalpha() and fw not in danger and chunk[0].isascii())))
             # a naked chunk directly after another segment needs separating whitespace only when
@@ -437,6 +455,13 @@ class ProgramGen:
                 if v == outs[0]:
                     v = [p.lower() if isinstance(p, str) else p for p in outs[0]]
                 outs.append(v)
+            elif rng.random() < 0.025:
+                # ... or differing only in the case of text that FOLLOWS an interpolated number
+                v0, _ = gen_number(rng)
+                w = rng.choice(["loaves", "Pieces", "cm thick", "Big Pots"])
+                outs[0] = norm_parts([rng.choice(WORDS[:10]) + " ", c.num_json(v0), " " + w])
+                if self.key(outs[0]) not in self.defined:
+                    outs.insert(1, outs[0][:2] + [outs[0][2].swapcase()])
             named = rng.random() < 0.4
         inferred, q = self.infer(e)
         if outs:
@@ -635,9 +660,41 @@ def gen_crossblock_program(rng: random.Random) -> List[List[Any]]:
     return blocks
 
 
+def gen_near_amount_program(rng: random.Random) -> List[List[Any]]:
+    """A sub recipe with an inferable quantity referenced exactly once by a quantity that is equal to, relatively
+    close to (just inside / just outside isclose's 1e-9), or ABSOLUTELY close to (tiny amounts, zero) the whole
+    amount: whether the reference is 'the whole amount' (and so folded away) must not depend on magnitude."""
+    def ref(n, amt=None):
+        return {"ref": n, "amt": amt, "off": -1}
+
+    def step(n, *ins):
+        return {"step": [n], "ins": list(ins), "short": False}
+
+    def st(outs, e, named=False):
+        return {"outs": outs, "named": named, "expr": e, "out_offs": []}
+
+    def qty(txt, unit):
+        v = Fraction(txt) if "/" in txt else (int(txt) if txt.isdigit() else float(txt))
+        return {"q": [c.num_json(v), unit, "" if unit is None else " ", ""], "explicit": unit == "handful", "numtxt": txt}
+    w = rng.sample(WORDS[:10], 4)
+    unit = rng.choice(["kg", "g", "l", None, "handful"])
+    a_txt, b_txt = rng.choice([
+        ("0.002", "0.0015"), ("0.0005", "0.0002"), ("0.001", "0"), ("0", "0.0004"), ("0.0004", "0.0004"), ("1/2000", "1/5000"),
+        ("2", "2"), ("1000000", "1000001"), ("2000000", "1999999"), ("2.5", "2.5000001"), ("100", "100.0000001"), ("100", "100.00000000001"), ("0.5", "1/2"), ("3", "3.0"), ("250", "249"),
+    ])
+    sub = [w[0] + " base"]
+    b1 = [st([sub], step(rng.choice(STEPS), ref([w[1]], qty(a_txt, unit))), named=rng.random() < 0.5),
+          st([], step(rng.choice(STEPS), ref(sub, qty(b_txt, unit)), ref([w[2]])))]
+    if rng.random() < 0.3:
+        return [b1[:1], b1[1:]]
+    return [b1]
+
+
 def gen_program(rng: random.Random, **kw: Any) -> List[List[Any]]:
     if not kw and rng.random() < 0.12:
         return gen_chain_program(rng)
+    if not kw and rng.random() < 0.05:
+        return gen_near_amount_program(rng)
     if not kw and rng.random() < 0.06:
         return gen_crossblock_program(rng)
     return ProgramGen(rng, **kw).program()
